@@ -104,10 +104,10 @@ def analyse0(tok, p=0):
         return s, p + 9
     if k == "POOL":
         Hh, W, C, ph, pw = [I(i) for i in range(1, 6)]
-        s.nin = Hh * W * C; s.nout = (Hh // ph) * (W // pw) * C; s.name = "PoolingLayer"; s.shape = "image %dx%dx%d patch %dx%d" % (Hh, W, C, ph, pw); return s, p + 6
+        s.nin = Hh * W * C; s.nout = (Hh // ph) * (W // pw) * C; s.name = "PoolingLayer"; s.modelled = True; s.shape = "image %dx%dx%d patch %dx%d" % (Hh, W, C, ph, pw); return s, p + 6
     if k == "RESIZE":
         Hh, W, C, oh, ow = [I(i) for i in range(1, 6)]
-        s.nin = Hh * W * C; s.nout = oh * ow * C; s.exact = False; s.name = "ResizeLayer"; s.shape = "image %dx%dx%d -> %dx%d" % (Hh, W, C, oh, ow); return s, p + 6
+        s.nin = Hh * W * C; s.nout = oh * ow * C; s.exact = False; s.modelled = True; s.model_exact = True; s.name = "ResizeLayer"; s.shape = "image %dx%dx%d -> %dx%d" % (Hh, W, C, oh, ow); return s, p + 6
     if k == "RBF":
         ni, no, tc, tw = I(1), I(2), I(3), I(4)
         s.np = (ni * no if tc else 0) + (no if tw else 0); s.nin, s.nout = ni, no; s.exact = False; s.hi = False
@@ -240,6 +240,31 @@ def gen_pool(rng):
     c = mk(rng, "POOL %d %d %d %d %d" % (Hh, W, C, ph, pw), B=rng.choice([1, 2, 3]), xden=8, xspan=60, tag="pool")
     return c
 
+def gen_pool_ties(rng):
+    """max pooling streams aimed at the tie rule (small integer pixels: equal maxima inside a patch are the rule), image sizes not
+    divisible by the patch (pixels outside all patches), 1x1 patches, one patch as large as the image, 1x1 images"""
+    r = rng.randrange(5); C = rng.choice([1, 2, 3])
+    if r == 0: ph, pw = rng.randint(2, 3), rng.randint(2, 3); Hh = ph * rng.randint(1, 2) + rng.randint(1, ph - 1); W = pw * rng.randint(1, 2) + rng.randint(1, pw - 1)
+    elif r == 1: ph = pw = 1; Hh = rng.randint(1, 4); W = rng.randint(1, 4)
+    elif r == 2: Hh = rng.randint(1, 4); W = rng.randint(1, 4); ph, pw = Hh, W
+    elif r == 3: Hh = W = ph = pw = 1
+    else: ph, pw = rng.randint(1, 3), rng.randint(1, 3); Hh = rng.randint(ph, 6); W = rng.randint(pw, 6)
+    c = mk(rng, "POOL %d %d %d %d %d" % (Hh, W, C, ph, pw), B=rng.choice([1, 2, 3]), tag="pool-ties")
+    lo, hi = rng.choice([(0, 1), (-1, 1), (-2, 2), (3, 3)])
+    c.X = [[float(rng.randint(lo, hi)) for _ in r_] for r_ in c.X]
+    return c
+
+def gen_resize_edge(rng):
+    """ResizeLayer: non-square targets (the sample points of setStructure), 1x1 / 1xk images and targets, power-of-two and other sizes"""
+    r = rng.randrange(4); C = rng.choice([1, 2, 3])
+    if r == 0: Hh, W, oh, ow = rng.randint(1, 4), rng.randint(1, 4), 1, 1
+    elif r == 1: Hh, W = 1, 1; oh, ow = rng.randint(1, 5), rng.randint(1, 5)
+    elif r == 2: Hh, W = rng.randint(1, 5), rng.randint(1, 5); oh, ow = rng.choice([(1, 5), (5, 1), (2, 7), (7, 2), (3, 4), (4, 3)])
+    else: Hh, W = rng.randint(2, 5), rng.randint(2, 5); oh, ow = rng.choice([1, 2, 4, 8]), rng.choice([1, 2, 4, 8])
+    c = mk(rng, "RESIZE %d %d %d %d %d" % (Hh, W, C, oh, ow), B=rng.choice([1, 2, 3]), tag="resize-edge")
+    if rng.random() < 0.5: c.X = [[float(rng.randint(-3, 3)) for _ in r_] for r_ in c.X]
+    return c
+
 def gen_resize(rng):
     return mk(rng, "RESIZE %d %d %d %d %d" % (rng.randint(2, 5), rng.randint(2, 5), rng.choice([1, 2]), rng.randint(1, 7), rng.randint(1, 7)), B=rng.choice([1, 2, 3]), tag="resize")
 
@@ -304,7 +329,7 @@ def gen_cls(rng):
     X = [[float(rng.randint(-2, 2)) for _ in range(ni)] for _ in range(rng.randint(1, 5))]
     return Case(spec, params, X, None, "cls")
 
-GENS = [(gen_lin, 7), (gen_net, 5), (gen_neu, 2), (gen_nrm, 1), (gen_conv, 4), (gen_conv_edge, 4), (gen_pool, 2), (gen_resize, 2), (gen_rbf, 2), (gen_cmac, 2),
+GENS = [(gen_lin, 7), (gen_net, 5), (gen_neu, 2), (gen_nrm, 1), (gen_conv, 4), (gen_conv_edge, 4), (gen_pool, 2), (gen_pool_ties, 3), (gen_resize, 2), (gen_resize_edge, 2), (gen_rbf, 2), (gen_cmac, 2),
         (gen_kexp, 2), (gen_ens, 2), (gen_netx, 5), (gen_cls, 3)]
 
 def gen_cases(rng, n):
@@ -455,7 +480,8 @@ def main():
         for k in ("np", "rt", "eb", "e1", "wpd", "wid", "wdp", "wdi"):
             if k in dm:
                 if k not in di: return "%s missing" % k
-                i = vdiff(dm[k], di[k], case.an.exact or k in ("np", "rt"))
+                # model_exact: the float instantiation mirrors the order of the floating point operations of the C++ (ResizeLayer)
+                i = vdiff(dm[k], di[k], case.an.exact or getattr(case.an, "model_exact", False) or k in ("np", "rt"))
                 if i is not None: return "%s[%d]: model %r implementation %r" % (k, i, dm[k][i] if i >= 0 else len(dm[k]), di[k][i] if i >= 0 else len(di[k]))
         return None
 
